@@ -26,6 +26,9 @@ type PathQuery struct {
 	// along the path walked) to a known value are only followed on the
 	// consistent side.
 	Assume map[ssa.Value]bool
+	// NonNil lists values assumed non-nil: comparisons of them (or of phis
+	// that resolve to them along the path) with nil are evaluated.
+	NonNil map[ssa.Value]bool
 }
 
 type pnode struct {
@@ -60,6 +63,16 @@ func (q PathQuery) evalBool(v ssa.Value, n *pnode, depth int) (val, known bool) 
 				r, k := q.evalBool(x.Y, n, depth+1)
 				return (r == cb) == (x.Op == token.EQL), k
 			}
+			if IsNilConst(x.Y) && len(q.NonNil) > 0 {
+				if rv := q.resolvePhi(x.X, n, 0); rv != nil {
+					if IsNilConst(rv) {
+						return x.Op == token.EQL, true
+					}
+					if q.NonNil[rv] {
+						return x.Op == token.NEQ, true
+					}
+				}
+			}
 		}
 	case *ssa.Phi:
 		// find where the path entered the phi's block
@@ -79,6 +92,32 @@ func (q PathQuery) evalBool(v ssa.Value, n *pnode, depth int) (val, known bool) 
 		}
 	}
 	return false, false
+}
+
+// resolvePhi follows phis along the path to the operand actually selected.
+func (q PathQuery) resolvePhi(v ssa.Value, n *pnode, depth int) ssa.Value {
+	if depth > 8 {
+		return nil
+	}
+	x, ok := v.(*ssa.Phi)
+	if !ok {
+		return v
+	}
+	for m := n; m != nil; m = m.prev {
+		if m.b != x.Block() {
+			continue
+		}
+		if m.prev == nil {
+			return nil
+		}
+		for i, p := range x.Block().Preds {
+			if p == m.prev.b && i < len(x.Edges) {
+				return q.resolvePhi(x.Edges[i], m.prev, depth+1)
+			}
+		}
+		return nil
+	}
+	return nil
 }
 
 // Find returns a witness path (sequence of instructions of interest: the
@@ -147,7 +186,7 @@ func (q PathQuery) Find() []ssa.Instruction {
 			if q.Prune != nil && q.Prune(n.b, s) {
 				continue
 			}
-			if ifi != nil && len(q.Assume) > 0 && len(n.b.Succs) == 2 && n.b.Succs[0] != n.b.Succs[1] {
+			if ifi != nil && (len(q.Assume) > 0 || len(q.NonNil) > 0) && len(n.b.Succs) == 2 && n.b.Succs[0] != n.b.Succs[1] {
 				if v, known := q.evalBool(ifi.Cond, n, 0); known && v != (si == 0) {
 					continue
 				}
